@@ -490,6 +490,11 @@ impl<'a> Gen<'a> {
                         0 => own,
                         1 => SimId::new(own.addr, own.gen.saturating_sub(1)),
                         2 => SimId::new(own.addr, own.gen.saturating_sub(2)),
+                        // the instance moves to a fresh address nobody else uses (address migration)
+                        3 => {
+                            let a = 100 + self.s.below(50) as u16;
+                            if d.obs.slot(a).is_some() { SimId::new(own.addr, own.gen + 1) } else { SimId::new(a, own.gen) }
+                        }
                         _ => SimId::new(own.addr, own.gen + 1 + self.s.below(2) as u32),
                     };
                     Step::In(Input::ChangeIdentity(new))
